@@ -141,7 +141,43 @@ func c24(c *engine.Ctx) {
 			c.Check(engine.Describe(lk.Index) == "p:msgID", "C24.R1", name+"/lookup/key", lk.Pos(), "the handler must be looked up with the id parameter (index is %s)", engine.Describe(lk.Index))
 			c.Check(heldAt(fls, lk, "p:e.mux"), "C24.R1", name+"/lookup/lock", lk.Pos(), "e.rpc must be read under e.mux")
 		}
-		c.Check(len(lks) == 1, "C24.R1", name+"/lookup/one", fn.Pos(), "exactly one lookup of e.rpc expected, found %d", len(lks))
+		// the lookup may have been extracted into a helper of the package: a
+		// function that looks e.rpc up once, with its own parameter as the key
+		// (which receives msgID), under e.mux, and returns what it found
+		var viaHelper []ssa.Value
+		if len(lks) == 0 {
+			for _, call := range engine.Calls(fn) {
+				h := call.Common().StaticCallee()
+				if h == nil || h.Pkg != fn.Pkg || len(h.Blocks) == 0 {
+					continue
+				}
+				hl := lookupsOf(h, "p:e.rpc")
+				if len(hl) != 1 {
+					continue
+				}
+				n1++
+				hls := engine.Locksets(h)
+				keyIdx := -1
+				for i, p := range h.Params {
+					if engine.Unwrap(hl[0].Index) == ssa.Value(p) {
+						keyIdx = i
+					}
+				}
+				args := engine.Args(call.Common())
+				okKey := keyIdx >= 0 && keyIdx < len(args) && engine.Describe(args[keyIdx]) == "p:msgID"
+				okRet := false
+				for _, r := range engine.Returns(h) {
+					if len(r.Results) > 0 && engine.DependsOn(r.Results[0], hl[0]) {
+						okRet = true
+					}
+				}
+				c.Check(okKey && okRet && heldAt(hls, hl[0], "p:e.mux"), "C24.R1", name+"/lookup/via-"+h.Name(), call.Pos(), "%s must look e.rpc up with the id it is given (which must be msgID), under e.mux, and return what it found", h.Name())
+				if v := call.Value(); v != nil {
+					viaHelper = append(viaHelper, v)
+				}
+			}
+		}
+		c.Check(len(lks)+len(viaHelper) == 1, "C24.R1", name+"/lookup/one", fn.Pos(), "exactly one lookup of e.rpc expected, found %d", len(lks)+len(viaHelper))
 		// the dynamic call invokes the looked-up value
 		dyn := 0
 		for _, call := range engine.Calls(fn) {
@@ -156,6 +192,11 @@ func c24(c *engine.Ctx) {
 			from := false
 			for _, lk := range lks {
 				if engine.DependsOn(cc.Value, lk) {
+					from = true
+				}
+			}
+			for _, hv := range viaHelper {
+				if engine.DependsOn(cc.Value, hv) {
 					from = true
 				}
 			}
